@@ -20,7 +20,7 @@ CASE_TIMEOUT = 30
 RULE = (
     "formula F over leaves Ev0..Ev4 drawn recursively (and/or nodes with 2-3 children, depth<=3, 2-5 leaves, distinct leaves) "
     "rendered fully parenthesised as `match F` (leaves = distinct event names, or one event name with distinct parameter values, or `$r_i.Finished()` of flows started earlier) / `await F` / `when F [or when G]` (await/when leaves are flows f_i := match Ev_i(), or actions X_iAction() finished by their ActionFinished event, or a mix); optionally the statement sits behind `match Go()` and 0-4 events arrive before it becomes active (they must not count; a flow finished early can never satisfy its leaf); event sequence of <=10 events drawn from the "
-    "leaf events (with repetition) and 2 irrelevant events; in a third of the cases the statement sits in `while True` and the sequence goes on over several activations (only events since the current activation count); in a third of the await/when cases over flows the member flows can fail (event Fail_i aborts f_i: it never delivers Finished; when no running member can complete the group the case stops); plus enumeration of ALL permutations of the leaf events for every "
+    "leaf events (with repetition) and 2 irrelevant events; in a third of the cases the statement sits in `while True` and the sequence goes on over several activations (only events since the current activation count); in a third of the await/when cases over flows the member flows can fail (event Fail_i aborts f_i: it never delivers Finished; when no running member can complete the group the case stops); in a quarter of the single-case await/when cases over flows 1-2 member flows finish without any event (their Finished events count from activation on); plus enumeration of ALL permutations of the leaf events for every "
     "formula shape with <=4 leaves (x 3 forms). Non-trivial = formula uses both operators or has depth>=2; distinct by "
     "(form, formula, sequence)."
 )
@@ -167,6 +167,10 @@ def _case(draw):
         fails = draw(st.lists(st.integers(0, nfl - 1), min_size=1, max_size=2))
         for x in fails:
             case["seq"].insert(draw(st.integers(0, min(len(case["seq"]), 4))), 100 + x)
+    # some member flows need no event at all (they finish in the step that starts them): their Finished events belong to
+    # the events received since the statement became active
+    if form in ("await", "when") and leaf == "flow" and g is None and not case.get("loop") and not case.get("fail") and draw(st.integers(0, 3)) == 0:
+        case["instant"] = sorted(draw(st.lists(st.sampled_from(list(range(n))), min_size=1, max_size=2, unique=True)))
     return case
 
 
@@ -211,7 +215,10 @@ def program(case):
     if form not in ("match", "matchp"):
         n = max(leaves(f) + (leaves(g) if g else [])) + 1
         for i in range(n):
-            if case.get("fail"):
+            if i in (case.get("instant") or []):
+                # no event is sent: flows started by different branches of an or-group would compete over their actions (C05)
+                lines += [f"flow f{i}", f"  $done = {i}", ""]
+            elif case.get("fail"):
                 lines += [f"flow f{i}", f"  when Ev{i}()", "    pass", f"  or when Fail{i}()", "    abort", ""]
             else:
                 lines += [f"flow f{i}", f"  match Ev{i}()", ""]
@@ -240,7 +247,76 @@ def program(case):
     return "\n".join(lines)
 
 
+def dnf(f):
+    """Or-list of and-groups, leaves in the order they are written (the order in which a group's flows are started)."""
+    if isinstance(f, int):
+        return [[f]]
+    parts = [dnf(a) for a in f["args"]]
+    if f["op"] == "or":
+        return [grp for p in parts for grp in p]
+    return [[x for grp in combo for x in grp] for combo in itertools.product(*parts)]
+
+
+def _timeline(case, defect=False):
+    """Index of the step at which the marker is due (-1 = at activation, None = never).
+    defect=True models known finding C07-F20: the Finished event of an instant flow is lost unless it is the last flow
+    started by its and-group (the group starts its flows one after the other and only then begins to match)."""
+    f, inst = case["f"], set(case["instant"])
+    groups = dnf(f)
+    if defect:
+        groups = [grp for grp in groups if not (set(grp[:-1]) & inst)]
+    seen = set(inst)
+    if any(all(x in seen for x in grp) for grp in groups):
+        return -1
+    for idx, e in enumerate(case["seq"]):
+        if e < 90:
+            seen.add(e)
+        if any(all(x in seen for x in grp) for grp in groups):
+            return idx
+    return None
+
+
+def _prop_instant(case):
+    f, form, seq = case["f"], case["form"], case["seq"]
+    text = program(case)
+    state = smh.init(text)
+    desc = f"{form} F={render(f, str)} with f_i, i in {case['instant']}, finishing without any event" + (f" pre={case['pre']}" if case.get("pre") is not None else "") + f" seq={seq}"
+    out = smh.types(list(state.outgoing_events))
+    if case.get("pre") is not None:
+        for e in case["pre"]:
+            if "Done" in smh.types(smh.feed(state, smh.ev(f"Ev{e}"))) or "Done" in out:
+                raise Violation(f"{form}-fired-before-active", f"{desc}: marker before the statement became active")
+        out = smh.types(smh.feed(state, smh.ev("Go")))
+    observed = [-1] if "Done" in out else []
+    for idx, e in enumerate(seq):
+        if "Done" in smh.types(smh.feed(state, smh.ev(f"Ev{e}"))):
+            observed.append(idx)
+    exp = _timeline(case)
+    if observed != ([exp] if exp is not None else []):
+        kind = f"{form}-not-fired" if not observed else f"{form}-fired-early" if exp is None or observed[0] < exp else f"{form}-fired-late" if len(observed) == 1 else f"{form}-fired-twice"
+        raise Violation(kind, f"{desc}: marker at steps {observed} (-1 = at activation), the formula is first satisfied at step {exp}", detail={"observed": observed})
+    o = ops(f)
+    labels = [form, "leaf-flow", "instant-member-flows", f"depth{fdepth(f)}", "both-ops" if len(o) == 2 else "one-op", "completed" if exp is not None else "never-true"]
+    if exp == -1:
+        labels.append("satisfied-at-activation")
+    if _timeline(case, defect=True) != exp:
+        labels.append("instant-flow-not-last-of-its-and-group")
+    view = {"statement": text.split("flow main\n")[1].split("\n  match Never")[0], "instant": case["instant"], "events": [f"Ev{e}" for e in seq], "fired_at": exp}
+    return ok(nt=len(o) == 2 or fdepth(f) >= 2 or len(leaves(f)) > len(case["instant"]), labels=labels, view=view)
+
+
+def known(case, violation):
+    # C07-F20: an exact model of the defect predicts the observed marker steps
+    if case.get("instant") and isinstance(violation.detail, dict) and "observed" in violation.detail:
+        d = _timeline(case, defect=True)
+        if d != _timeline(case) and violation.detail["observed"] == ([d] if d is not None else []):
+            return "C07-F20"
+    return None
+
+
 def prop(case):
+    if case.get("instant"):
+        return _prop_instant(case)
     f, g, form, seq = case["f"], case["g"], case["form"], case["seq"]
     text = program(case)
     try:
